@@ -130,6 +130,9 @@ func specPlain6(p *packets.FrameParser) bool {
 //@ ensures[C10.entry.closed]  forallint(h, !old(selb(isOpen, h)) ==> !selb(isOpen, h))
 //@ ensures[C10.entry.others]  forallint(h, old(selb(isOpen, h)) ==> selb(isOpen, h) && sel(closeN, h) == old(sel(closeN, h)))
 //@ before TracerouteParallel assert[C10.udp.open] selb(isOpen, ref(driver.source)) && selb(isOpen, ref(driver.sink))
+// what the run reports is what the engine and ToHops produced, under the endpoints the driver put on the wire
+//@ ensures[C03+C04+C05.entry.chain] ret1 == nil ==> sameslice(ret0.Hops, lastres(ToHops, 0)) && sameslice(lastarg(ToHops, probes), lastres(TracerouteParallel, 0)) && lastres(ToHops, 1) == nil && lastres(TracerouteParallel, 1) == nil
+//@ ensures[C06.entry.endpoints]     ret1 == nil ==> sameslice(ret0.Source.IPAddress, u.srcIP) && ret0.Source.Port == u.srcPort && sameslice(ret0.Destination.IPAddress, u.Target) && ret0.Destination.Port == u.TargetPort
 // C11: the UDP socket that reserves the source port stays open while the engine runs (concurrent UDP runs to one target
 // differ in nothing but that port)
 //@ before TracerouteParallel assert[C11.udp.port.held] !handle.MustClosePort ==> selb(isOpen, ref(conn))
